@@ -53,6 +53,14 @@ def main():
             except ValueError:
                 pass
     muts = [m for m in muts if (m["start"], m["end"], m["repl"]) not in done]
+    if "--recheck" in opt:
+        # only the mutants that survived the tests and every check in an earlier run: run them again (the checks may have
+        # been strengthened since); their old rows are replaced
+        rows = [json.loads(l) for l in open(outp)] if os.path.exists(outp) else []
+        keep = [r for r in rows if not (r.get("status") == "survived-tests" and not r.get("detected"))]
+        redo = [r for r in rows if r.get("status") == "survived-tests" and not r.get("detected")]
+        open(outp, "w").write("".join(json.dumps(r) + "\n" for r in keep))
+        muts = [{k: r[k] for k in ("start", "end", "repl", "desc", "line")} for r in redo]
     print("%s: %d mutants to try (%d already done), checks %s" % (rel, len(muts), len(done), ids), flush=True)
     lock = threading.Lock()
     it = iter(muts)
